@@ -629,6 +629,9 @@ func mergeAndPersistSynonymSection(segments []*SegmentBase, dropsIn []*roaring.B
 		}
 
 		var prevTerm []byte
+		// prevTerm stays nil after the empty term, so it cannot tell whether a
+		// term has been seen yet
+		seenTerm := false
 
 		newRoaring.Clear()
 
@@ -652,7 +655,7 @@ func mergeAndPersistSynonymSection(segments []*SegmentBase, dropsIn []*roaring.B
 		for err == nil {
 			term, itrI, postingsOffset := enumerator.Current()
 
-			if prevTerm != nil && !bytes.Equal(prevTerm, term) {
+			if seenTerm && !bytes.Equal(prevTerm, term) {
 				// check for the closure in meantime
 				if isClosed(closeCh) {
 					return nil, nil, seg.ErrClosed
@@ -700,6 +703,7 @@ func mergeAndPersistSynonymSection(segments []*SegmentBase, dropsIn []*roaring.B
 
 			prevTerm = prevTerm[:0] // copy to prevTerm in case Next() reuses term mem
 			prevTerm = append(prevTerm, term...)
+			seenTerm = true
 			err = enumerator.Next()
 		}
 		if err != vellum.ErrIteratorDone {
@@ -711,7 +715,7 @@ func mergeAndPersistSynonymSection(segments []*SegmentBase, dropsIn []*roaring.B
 			return nil, nil, err
 		}
 
-		if prevTerm != nil {
+		if seenTerm {
 			err = finishTerm(prevTerm)
 			if err != nil {
 				return nil, nil, err
